@@ -85,12 +85,16 @@ func (q qRealm) build(d *dialect, order []int, rev bool) *schema.Realm {
 		}
 		for _, tn := range q.tables[i] {
 			t := byName[sn+"."+tn]
-			if tn != "users" { // a key to every `users` table of the realm (across schemas)
+			// a key to every `users` table and to every table named `s1` of the realm (across schemas)
+			for _, target := range []string{"users", "s1"} {
+				if tn == target {
+					continue
+				}
 				for _, un := range qSchemas {
-					if u := byName[un+".users"]; u != nil {
-						c := schema.NewIntColumn("u_"+un, d.intT)
+					if u := byName[un+"."+target]; u != nil {
+						c := schema.NewIntColumn("r_"+target+"_"+un, d.intT)
 						t.AddColumns(c)
-						t.AddForeignKeys(schema.NewForeignKey(fmt.Sprintf("fk_%s_%s_%s", sn, tn, un)).SetTable(t).AddColumns(c).SetRefTable(u).AddRefColumns(u.Columns[0]))
+						t.AddForeignKeys(schema.NewForeignKey(fmt.Sprintf("fk_%s_%s_%s_%s", sn, tn, target, un)).SetTable(t).AddColumns(c).SetRefTable(u).AddRefColumns(u.Columns[0]))
 					}
 				}
 			}
@@ -192,6 +196,39 @@ func qObs(blocks []qBlock, kind string) string {
 	}
 	sort.Strings(l)
 	return "qo " + strings.Join(l, ",")
+}
+
+var reQFK = regexp.MustCompile(`foreign_key "fk_[a-z0-9]+_[a-z0-9]+_([a-z0-9]+)_([a-z0-9]+)" \{\n\s+columns\s*= \[[^\]]*\]\n\s+ref_columns\s*= \[table\.([\w.]+)\.column\.id\]`)
+
+// qRefObs: for every referenced table (schema.label, from the key's symbol) the set of ways the document refers
+// to it: `q.l` (table.<q>.<l>.column.id) or `l`.
+func qRefObs(blocks []qBlock) (targets [][2]string, obs string) {
+	seen := map[string]bool{}
+	var l []string
+	for _, b := range blocks {
+		if b.kind != "table" {
+			continue
+		}
+		for _, m := range reQFK.FindAllStringSubmatch(b.text, -1) {
+			ref := m[3]
+			if parts := strings.Split(ref, "."); len(parts) == 2 {
+				ref = fmt.Sprintf("%d.%d", qIntern[parts[0]], qIntern[parts[1]])
+			} else {
+				ref = fmt.Sprint(qIntern[ref])
+			}
+			k := fmt.Sprintf("%d.%d=>%s", qIntern[m[2]], qIntern[m[1]], ref)
+			if !seen[k] {
+				seen[k] = true
+				l = append(l, k)
+			}
+			if tk := m[2] + "." + m[1]; !seen[tk] {
+				seen[tk] = true
+				targets = append(targets, [2]string{m[2], m[1]})
+			}
+		}
+	}
+	sort.Strings(l)
+	return targets, "qr " + strings.Join(l, ",")
 }
 
 func qRealms() []qRealm {
@@ -301,6 +338,19 @@ func qualifySites(w *out.W) {
 				w.Count("qo:" + kind)
 				if q.hasConflict() {
 					w.NonTrivial(id)
+				}
+				// qr: QualifyReferences -- how the keys of the document refer to their target tables
+				if targets, obs := qRefObs(blocks); kind == "table" && len(targets) > 0 {
+					line := "qr" + strings.TrimPrefix(b.String(), "qo") + fmt.Sprintf(" %d", len(targets))
+					for _, t := range targets {
+						line += fmt.Sprintf(" %d %d", qIntern[t[0]], qIntern[t[1]])
+					}
+					rid := fmt.Sprintf("qr/%s/%d", d.name, ri)
+					w.Case(rid, line, []string{obs})
+					w.Count("qr")
+					if q.hasConflict() {
+						w.NonTrivial(rid)
+					}
 				}
 			}
 		}
